@@ -68,6 +68,19 @@ func (r *Run) Import(prefix string, only []string, f func(*Run)) {
 		m[o] = true
 	}
 	outer := r.imp
+	if outer != nil {
+		// a nested import contributes nothing unless an enclosing import lets one of its (prefixed) rules through;
+		// skipping it also keeps mutually importing properties from recursing
+		pass := false
+		for _, o := range only {
+			if _, ok := r.mapRule(prefix + o); ok {
+				pass = true
+			}
+		}
+		if !pass {
+			return
+		}
+	}
 	r.imp = &importCtx{prefix: prefix, only: m, outer: outer}
 	counts := r.Counts
 	r.Counts = map[string]int{}
